@@ -4,14 +4,64 @@ import json, os
 V = os.path.dirname(os.path.dirname(os.path.abspath(__file__)))
 props = [json.loads(l)["id"] for l in open(os.path.join(V, "properties.jsonl"))]
 
+import glob
+def has_proofs(pid):
+    return bool(glob.glob(os.path.join(V, "coq", "Properties_%s*.v" % pid)))
+
+COMMON_NOTE = ("Trusted: Coq 8.16.1 kernel + vm_compute, tools/gen_constants.py, extraction (ExtrOcamlBasic only) + OCaml glue, C harness + gcc + sanitizers. "
+               "The model is hand-written; it is tied to /repo only by the correspondence runs counted in the evidence file. ")
+
 CHECKS = {
- "C18": dict(cat="proof", tech="Coq proof (all lengths/alignments/code paths) + differential run of jls_crc32c on SSE4.2, table and ASan builds",
+ "C01": dict(tech="Coq model of sample packing/index pyramid (when Properties_C01*.v present) + differential run of writer+reader against the extracted Spec.spec_of",
+   text="Generated writer programs (all 15 types, minimal/small/default definitions, any first id, any partition into calls, 1-3 interleaved signals) are written with the library, closed, and length + windows at byte/block/summary-chunk boundaries are compared bit-for-bit with the extracted abstract specification (coq/Spec.v). Theorems about jls_bit_copy / block packing / the index pyramid are in coq/Properties_C01_*.v when present (see evidence: obligations).",
+   note=COMMON_NOTE, ref="5/C01"),
+ "C02": dict(tech="exact-arithmetic oracle extracted from Coq (Spec.stats_windows) applied to jls_rd_fsr_statistics under the property's own tolerances",
+   text="Statistics requests (single- and multi-window, increments selecting every summary level, starts at entry/block/chunk boundaries) on generated signals are checked against exact integer sums computed by the extracted Coq specification: min/max exact, mean within stored-summary precision, sqrt((d-1)/d) S <= std <= S, multi-window entries within the widened extremes, mean of means exact.",
+   note=COMMON_NOTE + "Floating-point rounding is measured, not proved. 64-bit sample types are answered with UNSUPPORTED at level 0 by the library (counted, not a violation).", ref="5/C02"),
+ "C03": dict(tech="crash-point enumeration over the interposed backend write log + prefix oracle from the extracted Spec",
+   text="Every crash point class (k complete backend writes; byte prefixes of in-place writes; selected prefixes of appends) of generated writer programs is materialised from the interposed write log and opened with the library: must terminate without fault; if opened, lengths <= submitted, samples = submitted prefix (hash against the extracted Spec), annotations/UTC/user data are subsequences of the written ones; at clean points the open succeeds with bounded loss. Known findings (known_findings.json) are reported as KNOWN-FINDING.",
+   note=COMMON_NOTE + "Crash model: one fd, writes reach the file in program order, a stop leaves a byte prefix of one write.", ref="5/C03"),
+ "C04": dict(tech="Coq proof of the CRC-32C detection algebra (weight<=3 or burst<=32 in any region < 2^31-1 bits) + corruption of real closed files",
+   text="coq/Properties_C04_alg.v proves on the LFSR operator of CrcDefs.v that every error pattern of odd weight, of weight two (order 2^31-1 by GF(2) matrix powers + primality), or confined to 32 consecutive bits, anywhere in message+stored CRC, changes the check, for every region length < 2^31-1 bits. The structural half (every returned byte comes from a CRC-checked chunk) is exercised by corrupting closed files (single-bit flips, 2/3-bit and burst errors per protected region, overwrites, multi-chunk, truncation) and requiring every reader call to return an error, the original answer or a correct prefix.",
+   note=COMMON_NOTE + "The structural half is tested, not proved.", ref="5/C04"),
+ "C08": dict(tech="Coq refinement proof of the ring buffer to a FIFO (all capacities <= 2^31, all sizes, all op sequences) + complete small-capacity state space replayed on the C",
+   text="coq/Properties_C08.v: invariant + abstraction function; alloc/peek/pop refine list append/head/tail; allocated regions lie inside the buffer and are disjoint from un-popped messages; alloc fails only when no free run can hold the message with its framing; after emptying, any message up to capacity-8 is accepted; every reachable state satisfies the invariant and no operation faults. Refutation witnesses document the repaired near-capacity defect. The C is tied by replaying the complete reachable state space for capacities 16..28 (thorough 16..34) and long random walks on both ASan and guard-byte builds.",
+   note=COMMON_NOTE + "Buffers above 2^31 bytes are outside the theorems (uint32 index arithmetic).", ref="5/C08"),
+ "C09": dict(tech="differential run of gap/overlap writer programs against the extracted Spec.fsr_write",
+   text="Writer programs with gaps (1 .. several blocks, around the internal fill-buffer size) and overlaps (partial/total/odd/even/sub-byte) for all 15 types are compared with the extracted specification (fill = NaN/0, first-written samples kept, length = last id + 1 - first id).",
+   note=COMMON_NOTE, ref="5/C09"),
+ "C10": dict(tech="API call-sequence fuzzing on the ASan+UBSan+LSan build with exactly sized caller buffers, forked child + watchdog",
+   text="Call sequences over the public sync/threaded writer, reader and copy API with ids/parameters/windows from boundary sets; oracle: no sanitizer report, signal, leak or time-out.",
+   note=COMMON_NOTE + "Memory safety is established only for the sequences run.", ref="5/C10"),
+ "C11": dict(tech="differential run against the extracted Spec.anno_seek_range (tail containing every annotation >= t, at most one earlier)",
+   text="0..decimation^2+ annotations with runs of equal timestamps aligned across index-chunk boundaries; iteration from every seek class and with stopping callbacks compared with the extracted specification.",
+   note=COMMON_NOTE, ref="5/C11"),
+ "C12": dict(tech="Coq proof of the id/time conversion (tmap.c model over Z/Q: anchored, monotone, linear, within one tick, inverse within one sample, total) + differential runs of jls_tmap_* and of UTC file round trips",
+   text="coq/Properties_C12_tmap.v: for every map with >= 1 entries (strictly increasing ids, non-decreasing times) and every query: stored pairs map exactly in both directions, the conversion is non-decreasing, equals the rounded linear interpolation between neighbours (within 1/2 tick), extrapolates from the nearest segment or the sample rate, is within one tick of exact, and converting back returns the id within one sample; the search never reads outside the map (total). Documentation theorems on the pre-repair code (*_old) record the two repaired defects. jls_tmap_* binaries are compared with the extracted model on generated maps (0..2500 entries incl. exactly the initial capacity) and queries; the UTC round trip through files is compared with the extracted Spec.utc_from.",
+   note=COMMON_NOTE + "binary64 evaluation of dk*(dt/ds) is modelled exactly over Q; the rounding gap is measured (within 1), with one partial theorem under an explicit rounding hypothesis.", ref="5/C12"),
+ "C13": dict(tech="differential run of definition/user-data programs against the extracted Spec.wstep acceptance rules and read-back",
+   text="Sources/signals with valid and invalid ids, duplicates, undefined sources, invalid types, NULL/empty/UTF-8/long strings (around the 1 MiB string block), user data 0..3 MiB, data calls on undefined signals, all shuffled; acceptance of every call and the definitions/user data read back are compared with the extracted specification.",
+   note=COMMON_NOTE, ref="5/C13"),
+ "C15": dict(tech="relational differential run: same stream with and without omission + extracted Spec",
+   text="Two signals with identical definition and data, one with omission toggles / constant blocks: lengths equal the specification, stored blocks bit-exact, automatically omitted <=8-bit constant blocks bit-exact through unaligned windows, requested omissions return the right size, summary-level statistics bit-identical.",
+   note=COMMON_NOTE, ref="5/C15"),
+ "C17": dict(tech="differential run: reader dump of the jls_copy output against the extracted Spec.spec_of of the original program",
+   text="Generated files (several signals/types, annotations, UTC, user data, omission) are copied with jls_copy; sources, signals, lengths, windows, annotations, UTC and user data of the copy are compared with the extracted specification of the original program.",
+   note=COMMON_NOTE, ref="5/C17"),
+ "C18": dict(tech="Coq proof (all lengths/alignments/code paths) + differential run of jls_crc32c on SSE4.2, table and ASan builds",
    text="Theorems in coq/Properties_C18.v: the byte-wise table form, crc32cSlicingBy8 (every alignment), the SSE4.2/ARM instruction loops and the three header variants equal the bit-serial CRC-32C reference for every byte list; the 8x256 tables parsed from crc32c_sw.c equal the generator polynomial's. The binaries are tied to the model by running jls_crc32c/jls_crc32c_hdr (both CRC builds + ASan) against the extracted reference on every length 0..320 (thorough 0..4096) x 8 alignments x 4 patterns and more.",
-   note="Trusted: Coq kernel + vm_compute, gen_constants.py (table probe), instruction semantics of crc32 (Intel SDM) as modelled, extraction + OCaml glue, C harness; crc32c_arm_neon.c modelled but not executed.", ref="5/C18"),
- "C20": dict(cat="proof", tech="Coq proof over Q of the accumulator algebra (any sequence, any split/grouping, aliasing) + differential run of jls_statistics_* with rounding tolerance",
-   text="Theorems in coq/Properties_C20.v over exact rationals with the C's control flow (k=0 branches, statement order on a store for aliasing): add one-at-a-time, compute, and combine of any grouping all equal the exact (count, mean, sum of squared deviations, min, max); variance >= 0; min <= mean <= max; combine with an empty accumulator is the identity; the result may overwrite either operand. The binaries are tied to the model by running jls_statistics_reset/add/compute_f32/f64/combine/var on generated programs (9 sequence families, every split point, random grouping trees, all aliasings) on the plain and ASan builds: count/min/max exact, mean/variance within the stated rounding tolerance, aliasing and identity bit-exact.",
-   note="Partial by nature: binary64 rounding is measured against the exact model, not proved (largest observed error/tolerance ratio is recorded in the evidence). Trusted: Coq kernel, extraction, OCaml glue (double -> exact rational conversion), C harness.", ref="5/C20"),
+   note=COMMON_NOTE + "Instruction semantics of crc32 (Intel SDM) as modelled; crc32c_arm_neon.c modelled but not executed.", ref="5/C18"),
+ "C19": dict(tech="byte-hash comparison around reader calls on closed files and around second opens of repaired crash images",
+   text="(a) closed files hashed before/after a shuffled mix of every reader call and a second open: unchanged; (b) crash images that open: the file after the repairing open is hashed and reopened: unchanged, and every answer identical.",
+   note=COMMON_NOTE, ref="5/C19"),
+ "C20": dict(tech="Coq proof over Q of the accumulator algebra (any sequence, any split/grouping, aliasing) + differential run of jls_statistics_* with rounding tolerance",
+   text="Theorems in coq/Properties_C20.v over exact rationals with the C's control flow (k=0 branches, statement order on a store for aliasing): add one-at-a-time, compute, and combine of any grouping all equal the exact (count, mean, sum of squared deviations, min, max); variance >= 0; min <= mean <= max; combine with an empty accumulator is the identity; the result may overwrite either operand. The binaries are tied to the model by running jls_statistics_* on generated programs (9 sequence families, every split point, random grouping trees, all aliasings) on the plain and ASan builds.",
+   note=COMMON_NOTE + "Binary64 rounding is measured against the exact model, not proved.", ref="5/C20"),
 }
+for _p, _c in CHECKS.items():
+    _c["cat"] = "proof" if has_proofs(_p) else "exploration"
+    if not has_proofs(_p):
+        _c["text"] = "[no theorem file for this property yet: this check is differential/oracle testing against the Coq-extracted specification] " + _c["text"]
 
 def main():
     m = {"version": 1, "setup_cmd": "make -C /verif setup",
